@@ -71,10 +71,16 @@ def FieldShape (o : Operand) (p : Pkg) : Prop :=
       ∃ hs, (p.additional = .multiByte hs ∨ p.additional = .multiWord hs) ∧ hs.flatten.length % 2 = 0 ∧
         p.size = hs.flatten.length / 2)
 
+/-- a package that is resolved later and has no post byte choices (batch B3: a label as constant offset of a pointer
+register) has room for a 16-bit field: `2 * size` = the digits of op code and post byte, and four more -/
+def LabelRoom (p : Pkg) : Prop :=
+  p.needsRes = true → p.choices = [] → 2 * p.size = hl p.opCode + hl p.postByte + 4
+
 structure PkgShape (o : Operand) (p : Pkg) : Prop where
   op : CodeVal p.opCode
   pb : CodeVal p.postByte
   fld : FieldShape o p
+  lbl : LabelRoom p
 
 /-! ### constant offsets -/
 
@@ -96,6 +102,9 @@ def szOffBody (ind : Bool) (row : InstrRow) (right : Str) (raw0 : Nat) (needs : 
       let sz := size + (if e then 2 else 1)
       let pb ← numV (raw0 ||| (if e then base + 0x0D else base + 0x0C))
       return { opCode := op, postByte := pb, additional := l, size := sz, maxSize := sz }
+  else if needs then
+    let pb ← numV (raw0 ||| (base + 0x09))
+    return { opCode := op, postByte := pb, additional := l, size := size + 2, maxSize := size + 2, needsRes := true }
   else
     match l with
     | .numeric i _ _ neg =>
@@ -151,7 +160,7 @@ theorem translateOffset_szEq (ind : Bool) (row : InstrRow) (left : Value) (right
 def OffShape (p : Pkg) : Prop :=
   CodeVal p.opCode ∧ CodeVal p.postByte ∧
     ((p.additional = .none ∧ 2 * p.size = hl p.opCode + hl p.postByte ∧ p.choices = []) ∨
-      p.additional.isNumeric = true ∨ p.needsRes = true)
+      p.additional.isNumeric = true ∨ p.needsRes = true) ∧ LabelRoom p
 
 theorem szOffBody_shape {ind : Bool} {row : InstrRow} {right : Str} {raw0 : Nat} {needs : Bool} {l : Value} {p : Pkg}
     (hraw : raw0 < 256) (hl : needs = false → l.isNumeric = true) (hrow : szOk row.ind row.indSz 2 = true)
@@ -169,41 +178,55 @@ theorem szOffBody_shape {ind : Bool} {row : InstrRow} {right : Str} {raw0 : Nat}
         · cases h
         · rename_i pb hpb
           cases h
-          exact ⟨hcop, .inr ⟨_, hpb⟩, .inr (.inr rfl)⟩
+          exact ⟨hcop, .inr ⟨_, hpb⟩, .inr (.inr rfl), fun _ hc => by cases hc⟩
       · rename_i hn
         have hnum := hl (by simpa using hn)
         repeat' split at h
         all_goals first
           | (cases h; done)
-          | (cases h; exact ⟨hcop, .inr ⟨_, by assumption⟩, .inr (.inl hnum)⟩)
+          | (cases h; exact ⟨hcop, .inr ⟨_, by assumption⟩, .inr (.inl hnum), fun hn => by cases hn⟩)
     · split at h
-      · rename_i i _ _ neg
-        have h4 : ∀ {x}, (!ind && is4Bit i neg) = true → numV x = .ok p.postByte → x < 256 →
-            p.opCode = op → p.size = row.indSz → p.additional = .none → p.choices = [] → OffShape p := by
-          intro x _ hx hlt e1 e2 e3 e4
-          refine ⟨by rw [e1]; exact hcop, .inr ⟨_, hx⟩, .inl ⟨e3, ?_, e4⟩⟩
-          rw [e1, e2, numV_hl hx hlt]; exact hsz
-        have b1 : raw0 ||| 16 ||| (16 - i) < 256 := sz_or_lt (sz_or_lt hraw (by decide)) (by omega)
-        have b2 : (!ind && is4Bit i neg) = true → raw0 ||| i < 256 := by
-          intro hc
-          simp only [Bool.and_eq_true, is4Bit] at hc
-          have : i ≤ 16 := by
-            have := hc.2
-            split at this <;> simp at this <;> omega
-          exact sz_or_lt hraw (by omega)
-        repeat' split at h
-        all_goals first
-          | (cases h; done)
-          | (cases h
-             refine h4 (by assumption) (by assumption) ?_ rfl rfl rfl rfl
-             first | exact b1 | exact b2 (by assumption))
-          | (cases h
-             exact ⟨hcop, .inr ⟨_, by assumption⟩, .inr (.inl (numV_isNumeric (by assumption)))⟩)
-          | (cases h
-             exact ⟨hcop, .inr ⟨_, by assumption⟩, .inr (.inl (numericOfInt_isNumeric (by assumption)))⟩)
-          | (cases h
-             exact ⟨hcop, .inr ⟨_, by assumption⟩, .inr (.inl rfl)⟩)
-      · cases h
+      · -- a label as constant offset: resolved later
+        split at h
+        · cases h
+        · rename_i pb hpb
+          cases h
+          refine ⟨hcop, .inr ⟨_, hpb⟩, .inr (.inr rfl), fun _ _ => ?_⟩
+          have hlt : raw0 ||| ((if ind = true then 144 else 128) + 9) < 256 := sz_or_lt hraw (by split <;> decide)
+          show 2 * (row.indSz + 2) = CoCo.Asm.hl op + CoCo.Asm.hl pb + 4
+          rw [numV_hl hpb hlt]; omega
+      · rename_i hneeds
+        have hlr : ∀ {q : Pkg}, q.needsRes = needs → LabelRoom q := fun e hn => by
+          rw [e] at hn; exact absurd hn hneeds
+        split at h
+        · rename_i i _ _ neg
+          have h4 : ∀ {x}, (!ind && is4Bit i neg) = true → numV x = .ok p.postByte → x < 256 →
+              p.opCode = op → p.size = row.indSz → p.additional = .none → p.choices = [] → p.needsRes = needs →
+              OffShape p := by
+            intro x _ hx hlt e1 e2 e3 e4 e5
+            refine ⟨by rw [e1]; exact hcop, .inr ⟨_, hx⟩, .inl ⟨e3, ?_, e4⟩, hlr e5⟩
+            rw [e1, e2, numV_hl hx hlt]; exact hsz
+          have b1 : raw0 ||| 16 ||| (16 - i) < 256 := sz_or_lt (sz_or_lt hraw (by decide)) (by omega)
+          have b2 : (!ind && is4Bit i neg) = true → raw0 ||| i < 256 := by
+            intro hc
+            simp only [Bool.and_eq_true, is4Bit] at hc
+            have : i ≤ 16 := by
+              have := hc.2
+              split at this <;> simp at this <;> omega
+            exact sz_or_lt hraw (by omega)
+          repeat' split at h
+          all_goals first
+            | (cases h; done)
+            | (cases h
+               refine h4 (by assumption) (by assumption) ?_ rfl rfl rfl rfl rfl
+               first | exact b1 | exact b2 (by assumption))
+            | (cases h
+               exact ⟨hcop, .inr ⟨_, by assumption⟩, .inr (.inl (numV_isNumeric (by assumption))), hlr rfl⟩)
+            | (cases h
+               exact ⟨hcop, .inr ⟨_, by assumption⟩, .inr (.inl (numericOfInt_isNumeric (by assumption))), hlr rfl⟩)
+            | (cases h
+               exact ⟨hcop, .inr ⟨_, by assumption⟩, .inr (.inl rfl), hlr rfl⟩)
+        · cases h
 
 theorem translateOffset_shape {ind : Bool} {row : InstrRow} {left : Value} {right : Str} {raw0 : Nat} {p : Pkg}
     (hraw : raw0 < 256) (hleft : Fieldable left) (hrow : szOk row.ind row.indSz 2 = true)
@@ -227,10 +250,10 @@ theorem translateOffset_shape {ind : Bool} {row : InstrRow} {left : Value} {righ
 
 theorem OffShape.toPkg {o : Operand} {p : Pkg} (h : OffShape p) : PkgShape o p :=
   ⟨h.1, h.2.1, by
-    rcases h.2.2 with h | h | h
+    rcases h.2.2.1 with h | h | h
     · exact .inl h
     · exact .inr (.inr (.inl h))
-    · exact .inr (.inr (.inr (.inl h)))⟩
+    · exact .inr (.inr (.inr (.inl h))), h.2.2.2⟩
 
 /-- closes goals `x < 256` for post bytes assembled with `|||` from register bits and constants -/
 theorem sz_regBits_lt256 (r : Str) : regBits r < 256 := Nat.lt_trans (sz_regBits_lt r) (by decide)
@@ -254,8 +277,9 @@ theorem ind_szOk {row : InstrRow} (hrow : rowFacts row = true) (h : ¬ (row.ind.
 theorem noField_shape {o : Operand} {row : InstrRow} {p : Pkg} {op pb : Value} {x : Nat}
     (hsz : szOk row.ind row.indSz 2 = true) (hop : opVal row.ind = .ok op) (hpb : numV x = .ok pb) (hx : x < 256)
     (e1 : p.opCode = op) (e2 : p.postByte = pb) (e3 : p.additional = .none) (e4 : p.size = row.indSz)
-    (e5 : p.choices = []) : PkgShape o p := by
-  refine ⟨by rw [e1]; exact opVal_codeVal hop, by rw [e2]; exact .inr ⟨_, hpb⟩, .inl ⟨e3, ?_, e5⟩⟩
+    (e5 : p.choices = []) (e6 : p.needsRes = false) : PkgShape o p := by
+  refine ⟨by rw [e1]; exact opVal_codeVal hop, by rw [e2]; exact .inr ⟨_, hpb⟩, .inl ⟨e3, ?_, e5⟩,
+    fun hn => by rw [e6] at hn; cases hn⟩
   rw [e1, e2, e4, numV_hl hpb hx]
   exact szOk_use hsz hop
 
@@ -284,6 +308,7 @@ def szIdxBody (o : Operand) (row : InstrRow) (right : Str) : R Pkg := do
     match o.left with
     | .text l =>
       if isABD l then
+        if hasSub ['+'] right || hasSub ['-'] right then throw .operandType
         let raw := raw ||| 0x80 ||| (if l == ['A'] then 0x06 else if l == ['B'] then 0x05 else 0x0B)
         let pb ← numV raw
         return { opCode := op, postByte := pb, size := row.indSz, maxSize := row.indSz }
@@ -336,6 +361,7 @@ def szExtBody (o : Operand) (row : InstrRow) (op : Value) (right : Str) : R Pkg 
     match o.left with
     | .text l =>
       if isABD l then
+        if hasSub ['+'] right || hasSub ['-'] right then throw .operandType
         let raw := raw ||| (if l == ['A'] then 0x16 else if l == ['B'] then 0x15 else 0x1B)
         let pb ← numV raw
         return { opCode := op, postByte := pb, size := row.indSz, maxSize := row.indSz }
@@ -351,7 +377,7 @@ theorem translateExtIndirect_szEq (o : Operand) (row : InstrRow) :
       match opVal row.ind with
       | .error e => .error e
       | .ok op =>
-        if (o.value.isAddress || o.value.isNumeric) = true then
+        if (o.value.isAddress || o.value.isAddrExpr || o.value.isNumeric) = true then
           (match numV 0x9F with
            | .error e => .error e
            | .ok pb => .ok { opCode := op, postByte := pb, additional := o.value, size := row.indSz + 2,
@@ -372,7 +398,7 @@ theorem translateExtIndirect_szEq (o : Operand) (row : InstrRow) :
     | error e => rfl
     | ok op =>
       dsimp only
-      by_cases ha : (o.value.isAddress || o.value.isNumeric) = true
+      by_cases ha : (o.value.isAddress || o.value.isAddrExpr || o.value.isNumeric) = true
       · rw [if_pos ha, if_pos ha]; rfl
       · rw [if_neg ha, if_neg ha]
         cases o.right with
@@ -406,7 +432,7 @@ theorem translateIndexed_shape {o : Operand} {row : InstrRow} {p : Pkg} (hrow : 
           all_goals first
             | (cases h; done)
             | (cases h
-               refine noField_shape hsz (by assumption) (by assumption) ?_ rfl rfl rfl rfl rfl
+               refine noField_shape hsz (by assumption) (by assumption) ?_ rfl rfl rfl rfl rfl rfl
                lt256)
             | (exact (translateOffset_shape (sz_regBits_lt256 _) (h1.left1 _ (by assumption)) hsz h).toPkg)
 
@@ -428,9 +454,10 @@ theorem translateExtIndirect_shape {o : Operand} {row : InstrRow} {p : Pkg} (hro
           cases h
           exact ⟨opVal_codeVal hop, .inr ⟨_, hpb⟩, .inr (.inl ⟨rfl, by
             simp only [Bool.or_eq_true] at hcond
-            rcases hcond with hc | hc
+            rcases hcond with (hc | hc) | hc
             · exact .inr (.inl hc)
-            · exact .inl hc⟩)⟩
+            · exact .inr (.inr hc)
+            · exact .inl hc⟩), fun hn => by cases hn⟩
       · split at h
         · cases h
         · split at h
@@ -443,7 +470,7 @@ theorem translateExtIndirect_shape {o : Operand} {row : InstrRow} {p : Pkg} (hro
               all_goals first
                 | (cases h; done)
                 | (cases h
-                   refine noField_shape hsz hop (by assumption) ?_ rfl rfl rfl rfl rfl
+                   refine noField_shape hsz hop (by assumption) ?_ rfl rfl rfl rfl rfl rfl
                    lt256)
                 | (exact (translateOffset_shape (by lt256) (h1.left1 _ (by assumption)) hsz h).toPkg)
                 | (exfalso
@@ -480,12 +507,12 @@ theorem translatePseudo_fcb {o : Operand} {row : InstrRow} {p : Pkg} (hm : row.m
     · cases h
     · simp only [Bool.false_eq_true, if_false] at h
       cases h
-      exact ⟨.inl rfl, .inl rfl, .inr (.inl ⟨rfl, hf⟩)⟩
+      exact ⟨.inl rfl, .inl rfl, .inr (.inl ⟨rfl, hf⟩), fun hn => by cases hn⟩
   · rw [hv] at h
     simp only [Value.isMultiByte, if_true, Value.byteLen?, Value.hexLen?, Value.hex?, Option.map] at h
     cases h
     have hlen := flatten_length_const hs hl
-    refine ⟨.inl rfl, .inl rfl, .inr (.inr (.inr (.inr ⟨rfl, rfl, rfl, hs, .inl ?_, ?_, ?_⟩)))⟩
+    refine ⟨.inl rfl, .inl rfl, .inr (.inr (.inr (.inr ⟨rfl, rfl, rfl, hs, .inl ?_, ?_, ?_⟩))), fun hn => by cases hn⟩
     · rfl
     · rw [hlen]; omega
     · rfl
@@ -505,13 +532,13 @@ theorem translatePseudo_fdb {o : Operand} {row : InstrRow} {p : Pkg} (hm : row.m
     · cases h
     · simp only [Bool.false_eq_true, if_false] at h
       cases h
-      exact ⟨.inl rfl, .inl rfl, .inr (.inl ⟨rfl, hf⟩)⟩
+      exact ⟨.inl rfl, .inl rfl, .inr (.inl ⟨rfl, hf⟩), fun hn => by cases hn⟩
   · rw [hmb] at hc; cases hc
   · rw [hv] at h
     simp only [Value.isMultiWord, if_true, Value.byteLen?, Value.hexLen?, Value.hex?, Option.map] at h
     cases h
     have hlen := flatten_length_const hs hl
-    refine ⟨.inl rfl, .inl rfl, .inr (.inr (.inr (.inr ⟨rfl, rfl, rfl, hs, .inr ?_, ?_, ?_⟩)))⟩
+    refine ⟨.inl rfl, .inl rfl, .inr (.inr (.inr (.inr ⟨rfl, rfl, rfl, hs, .inr ?_, ?_, ?_⟩))), fun hn => by cases hn⟩
     · rfl
     · rw [hlen]; omega
     · rfl
@@ -582,8 +609,9 @@ theorem translateOperand_shape {o : Operand} {row : InstrRow} {p : Pkg} (hrow : 
       rw [hmb] at hm
       exact translatePseudo_fdb (f2 (by simpa using hm)) hmb hd h
   | relative =>
-    obtain ⟨t1, t2, _, t4, t5, _, _⟩ := translate_relative h hk
-    exact ⟨opVal_codeVal t4, by rw [t5]; exact .inl rfl, .inr (.inl ⟨t1, .inr (.inl t2)⟩)⟩
+    obtain ⟨t1, t2, _, t4, t5, t6, _⟩ := translate_relative h hk
+    exact ⟨opVal_codeVal t4, by rw [t5]; exact .inl rfl, .inr (.inl ⟨t1, .inr (.inl t2)⟩),
+      fun hn => by rw [t6] at hn; cases hn⟩
   | indexed =>
     unfold translateOperand at h; rw [hk] at h
     exact translateIndexed_shape hrow h1 h
@@ -601,7 +629,7 @@ theorem translateOperand_shape {o : Operand} {row : InstrRow} {p : Pkg} (hrow : 
       · cases h
       · rename_i op hop
         cases h
-        refine ⟨opVal_codeVal hop, .inl rfl, .inl ⟨rfl, ?_, rfl⟩⟩
+        refine ⟨opVal_codeVal hop, .inl rfl, .inl ⟨rfl, ?_, rfl⟩, fun hn => by cases hn⟩
         have hsz : szOk row.inh row.inhSz 0 = true := by
           unfold rowFacts at hrow
           simp only [Bool.and_eq_true, Bool.or_eq_true] at hrow
@@ -618,7 +646,8 @@ theorem translateOperand_shape {o : Operand} {row : InstrRow} {p : Pkg} (hrow : 
     repeat' split at h
     all_goals first
       | (cases h; done)
-      | (cases h; exact ⟨opVal_codeVal (by assumption), .inl rfl, .inr (.inl ⟨rfl, h1.val (.inl hk)⟩)⟩)
+      | (cases h; exact ⟨opVal_codeVal (by assumption), .inl rfl, .inr (.inl ⟨rfl, h1.val (.inl hk)⟩),
+          fun hn => by cases hn⟩)
   | direct =>
     unfold translateOperand at h
     rw [hk] at h
@@ -626,7 +655,8 @@ theorem translateOperand_shape {o : Operand} {row : InstrRow} {p : Pkg} (hrow : 
     repeat' split at h
     all_goals first
       | (cases h; done)
-      | (cases h; exact ⟨opVal_codeVal (by assumption), .inl rfl, .inr (.inl ⟨rfl, h1.val (.inr (.inl hk))⟩)⟩)
+      | (cases h; exact ⟨opVal_codeVal (by assumption), .inl rfl, .inr (.inl ⟨rfl, h1.val (.inr (.inl hk))⟩),
+          fun hn => by cases hn⟩)
   | extended =>
     unfold translateOperand at h
     rw [hk] at h
@@ -634,7 +664,8 @@ theorem translateOperand_shape {o : Operand} {row : InstrRow} {p : Pkg} (hrow : 
     repeat' split at h
     all_goals first
       | (cases h; done)
-      | (cases h; exact ⟨opVal_codeVal (by assumption), .inl rfl, .inr (.inl ⟨rfl, h1.val (.inr (.inr hk))⟩)⟩)
+      | (cases h; exact ⟨opVal_codeVal (by assumption), .inl rfl, .inr (.inl ⟨rfl, h1.val (.inr (.inr hk))⟩),
+          fun hn => by cases hn⟩)
 
 /-! ### the classes `fitWidth` leaves alone: PSHS / TFR ..., and the directives other than FCB / FDB -/
 
